@@ -314,6 +314,8 @@ impl ParallelCacheState {
             // we need to changed state to destroyed.
             if is_destructed {
                 self.storage.remove(&address);
+                #[cfg(feature = "verif")]
+                crate::verif::point(crate::verif::Point::CommitApplyAccount, 0, 0);
                 return self.get_account_mut(address).selfdestruct();
             }
 
@@ -328,6 +330,8 @@ impl ParallelCacheState {
             if is_created {
                 let info = account.info;
                 self.storage.remove(&address);
+                #[cfg(feature = "verif")]
+                crate::verif::point(crate::verif::Point::CommitApplyAccount, 1, 0);
                 let (transition, changed_slots) =
                     self.get_account_mut(address).newly_created(info.clone(), changed_storage);
                 self.contracts.entry(info.code_hash).or_insert_with(|| info.code.clone().unwrap());
@@ -342,6 +346,8 @@ impl ParallelCacheState {
             // reaches the commit layer as touched, empty, and not created must be cleared.
             else if is_empty {
                 self.storage.remove(&address);
+                #[cfg(feature = "verif")]
+                crate::verif::point(crate::verif::Point::CommitApplyAccount, 2, 0);
                 drop(changed_storage);
                 (self.get_account_mut(address).touch_empty_eip161(), None)
             } else {
@@ -493,6 +499,8 @@ impl<'a, DB: DatabaseRef> ParallelStateView<'a, DB> {
             return Ok(account);
         }
         let info = self.with_metrics(|| self.database.basic_ref(address))?;
+        #[cfg(feature = "verif")]
+        crate::verif::point(crate::verif::Point::CacheAfterFetchBasic, 0, 0);
         let account = match info {
             None => CacheAccountInfo::new(None, AccountStatus::LoadedNotExisting),
             Some(acc) if acc.is_empty() => CacheAccountInfo::new(
@@ -529,6 +537,8 @@ impl<'a, DB: DatabaseRef> ParallelStateView<'a, DB> {
             return Ok(account.account.clone());
         }
         let info = self.with_metrics(|| self.database.basic_ref(address))?;
+        #[cfg(feature = "verif")]
+        crate::verif::point(crate::verif::Point::CacheAfterFetchBasic, 1, 0);
         let account = match info {
             None => CacheAccountInfo::new(None, AccountStatus::LoadedNotExisting),
             Some(acc) if acc.is_empty() => CacheAccountInfo::new(
@@ -548,6 +558,8 @@ impl<'a, DB: DatabaseRef> ParallelStateView<'a, DB> {
             return Ok(code.value().clone());
         }
         let code = self.with_metrics(|| self.database.code_by_hash_ref(code_hash))?;
+        #[cfg(feature = "verif")]
+        crate::verif::point(crate::verif::Point::CacheAfterFetchCode, 0, 0);
         match self.cache.contracts.entry(code_hash) {
             Entry::Occupied(entry) => Ok(entry.get().clone()),
             Entry::Vacant(entry) => {
@@ -575,6 +587,8 @@ impl<'a, DB: DatabaseRef> ParallelStateView<'a, DB> {
         } else {
             self.with_metrics(|| self.database.storage_ref(address, index))?
         };
+        #[cfg(feature = "verif")]
+        crate::verif::point(crate::verif::Point::CacheAfterFetchStorage, is_storage_known as usize, 0);
         let value = if let Some(slots) = self.cache.storage.get(&address) {
             *slots.entry(index).or_insert(value).value()
         } else {
